@@ -177,6 +177,12 @@ def _c07_o1(W, ob):
 
 from . import inventory
 
+
+def _c12_o7(W, ob):
+    from . import c12 as _m
+    return _m.o7(W, ob)
+
+
 OBLIGATIONS = [
     ('C10.O1', 'gossip out', 'every Input packet carries the connect_status it was given; the session passes local_connect_status at every '
      'send_input/poll call.', o1),
@@ -188,9 +194,11 @@ OBLIGATIONS = [
     ('C10.O5', 'the pending disconnect frame takes part in the rollback (= C01.O7)', 'see C01.O7', c01.o7),
     ('C10.O6', 'same cut-off predicate everywhere (= C03.O2)', 'see C03.O2', c03.o2),
     ('C10.O7', 'a peer is dropped by the timeout rule only (= C07.O1)', 'survivors that drop a live peer at different moments disagree on its cut-off: Disconnected is raised under last_recv_time + disconnect_timeout < now and nothing else; see C07.O1', _c07_o1),
+    ('C10.O8', 'a dropped peer is reported once and its endpoint says nothing further (= C12.O7)', 'the cut-off of a dropped player is adopted once: the endpoint is stopped on Disconnected and every emission site of the endpoint (poll, handle_message, the resend-queue cap in send_input) requires the Running state, so no second Disconnected re-enters disconnect_player_at_frame with a stale frame; see C12.O7', _c12_o7),
     ('C10.H', 'helpers the rules above rely on', 'the bodies of the helpers named by this property\'s rules compute what the rules assume (endpoint_getters); see rules/helpers.py', helpers.bundle('endpoint_getters')),
     ('C10.I', 'initial state', 'every constructor gives the fields this property\'s rules interpret (NULL_FRAME = none / nothing yet, 0 = first frame, latches open, typestate start) the value listed in tables/initial_state.json; every field compared with NULL_FRAME anywhere is listed; see rules/initial.py', initial.rule_for('C10')),
     ('C10.M', 'must-call floor', 'the calls listed for this property in tables/must_call.json are made on every path from the entry of their function to a normal return (interprocedural must-call): a new early return, fast path or extra condition in front of one of them is reported; see rules/mustcall.py', mustcall.rule_for('C10')),
     ('C10.V', 'no unreviewed condition in the pinned helpers', 'for each helper whose body this property\'s rules pin (tables/condition_terms.json), the terms its path conditions are built from (fields, parameters, call results -- no constants, operators or local names) are a subset of the reviewed vocabulary: one more `if` in front of a pinned result (a lock that may time out, "only while an endpoint is running") is reported; see rules/vocab.py', vocab.rule_for('C10')),
     ('C10.S', 'state inventory', 'every field of the structs this property\'s rules read (tables/state.json) is known, and is written only by its reviewed writers (or helpers only they call): a new field is new state across calls -- a cache, a flag, a stored deadline -- that nothing has shown to stay in step; a new writer is a second place that resets, re-arms or moves something; see rules/inventory.py', inventory.state_rule_for('C10')),
+    ('C10.K', 'call inventory', 'every reviewed call of a function that writes state (tables/call_edges.json, callers in the structs this property\'s rules read) is still made, directly or through helpers: a call deleted as redundant is reported; see rules/inventory.py', inventory.call_rule_for('C10')),
 ]
